@@ -215,6 +215,20 @@ def _nest(stmts, mk):
             ast.copy_location(new, s)
             out.append(new)
             return out
+        if isinstance(s, ast.Try) and _has_return([s]) and not s.finalbody and not _has_return(s.finalbody):
+            # returns in the blocks of a try without finally: what follows the try runs after its else block and after every
+            # handler that falls through, so it is moved there (the handlers do not protect it, as before)
+            rest = stmts[i + 1 :]
+            new = ast.Try(body=_nest(s.body, mk) or [ast.Pass()],
+                          handlers=[ast.copy_location(ast.ExceptHandler(type=h.type, name=h.name, body=_nest(list(h.body) + clone(rest), mk) or [ast.Pass()]), h)
+                                    for h in s.handlers],
+                          orelse=_nest(list(s.orelse) + rest, mk) if (s.orelse or rest) and not _terminates(s.body) else (_nest(s.orelse, mk) if s.orelse else []),
+                          finalbody=[])
+            if _has_return(new.body) or any(isinstance(x, ast.Return) for x in _own(new.body)):
+                raise _Skip("return left inside a try body")
+            ast.copy_location(new, s)
+            out.append(new)
+            return out
         if _has_return([s]):
             raise _Skip("return inside a loop / try / with")
         out.append(s)
@@ -261,6 +275,7 @@ class Inliner:
         self._done: set[int] = set()
         self._active: set[int] = set()
         self._counter = 0
+        self._introduced: dict[str, set[str]] = {}
         self.into: dict[str, set[str]] = {}  # function key -> keys of the helpers whose bodies were expanded into it
 
     def _record(self, f, g):
@@ -282,8 +297,9 @@ class Inliner:
             return None
         if g.kind not in ("function", "method", "staticmethod"):
             return None
-        decos = [d for d in node.decorator_list if (ast.unparse(d) != "staticmethod")]
-        if decos:
+        decos = [ast.unparse(d) for d in node.decorator_list if (ast.unparse(d) != "staticmethod")]
+        ctxmgr = decos in (["contextlib.contextmanager"], ["contextmanager"])
+        if decos and not ctxmgr:
             return None
         a = node.args
         if a.vararg or a.kwarg:
@@ -308,6 +324,17 @@ class Inliner:
                 gen = True
         if count > MAX_HELPER_STMTS or not body:
             return None
+        if ctxmgr:
+            # a generator-based context manager: one `yield` statement, not in a loop, no return
+            ys = [x for x in _own(body) if isinstance(x, (ast.Yield, ast.YieldFrom))]
+            if len(ys) != 1 or not isinstance(ys[0], ast.Yield) or any(isinstance(x, ast.Return) for x in _own(body)):
+                return None
+            if not any(isinstance(st, ast.Expr) and st.value is ys[0] for st in _own(body)):
+                return None
+            for lp in (x for x in _own(body) if isinstance(x, (ast.For, ast.While))):
+                if any(y is ys[0] for y in ast.walk(lp)):
+                    return None
+            return "ctx"
         if gen:
             return "gen"
         if _as_single_expr(body) is not None:
@@ -398,7 +425,7 @@ class Inliner:
         top = f
         while top.parent is not None:
             top = top.parent
-        names = set()
+        names = self._introduced.setdefault(top.key, set())  # names of earlier expansions not yet spliced into the tree
         for n in ast.walk(top.node):
             if isinstance(n, ast.Name):
                 names.add(n.id)
@@ -447,10 +474,12 @@ class Inliner:
             call, ctx = s.value, ("return", None)
         elif isinstance(s, ast.For) and isinstance(s.iter, ast.Call) and not s.orelse:
             call, ctx = s.iter, ("for", s)
+        elif isinstance(s, ast.With) and len(s.items) == 1 and isinstance(s.items[0].context_expr, ast.Call):
+            call, ctx = s.items[0].context_expr, ("with", s)
         g = getattr(call, "_inl", None) if call is not None else None
         if g is not None and depth < MAX_DEPTH:
             shape = self.shape(g)
-            ok = (ctx[0] == "for") == (shape == "gen") and shape != "expr"
+            ok = (ctx[0] == "for") == (shape == "gen") and (ctx[0] == "with") == (shape == "ctx") and shape != "expr"
             if ok:
                 try:
                     new = self._expand_site(f, s, call, ctx, g, shape, depth)
@@ -553,7 +582,8 @@ class Inliner:
                 if c is e and not isinstance(s, ast.If):
                     continue  # whole right-hand side: handled by the statement forms
                 # only the first call in evaluation order may be moved in front of the statement; calls before it must be pure names
-                if any(x is not c for x in calls[: calls.index(c)]):
+                inside = {id(x) for x in ast.walk(c)}
+                if any(id(x) not in inside for x in calls[: calls.index(c)]):
                     return None
                 tmp = self._fresh(f"{g.name.strip('_')}_result", self._caller_names(f))
                 asg = ast.Assign(targets=[ast.Name(id=tmp, ctx=ast.Store())], value=c)
@@ -710,6 +740,33 @@ class Inliner:
             if not _terminates(body):
                 body = body + [ast.copy_location(ast.Return(value=None), s)]
             new = pre + _nest(body, mk)
+        elif kind == "with":
+            # `with helper(...) as t: BODY` for a generator-based context manager: BODY runs where the manager yields (an
+            # exception in BODY is raised there, so a try/finally around the yield protects BODY exactly as it does at run time)
+            w = target
+            for n in self._loop_level(w.body):
+                if isinstance(n, (ast.Break, ast.Continue, ast.Return)):
+                    raise _Skip("return/break/continue in the with body")
+            inner = self._block(f, w.body, depth)
+            as_target = w.items[0].optional_vars
+
+            class Yw(ast.NodeTransformer):
+                def visit_Expr(self_, node):
+                    if isinstance(node.value, ast.Yield):
+                        out = []
+                        if as_target is not None:
+                            asg = ast.Assign(targets=[clone(as_target)], value=node.value.value if node.value.value is not None else ast.Constant(value=None))
+                            out.append(ast.copy_location(asg, node))
+                        return out + inner
+                    return node
+
+                def visit_FunctionDef(self_, node):
+                    return node
+
+                def visit_Lambda(self_, node):
+                    return node
+
+            new = pre + [x for st in body for x in _as_list(Yw().visit(st))]
         else:  # for t in gen(...): BODY
             loop = target
             for n in self._loop_level(loop.body):
@@ -842,12 +899,99 @@ def _as_list(x):
     return x if isinstance(x, list) else [x]
 
 
+def _literal_constant(m, e, depth=0):
+    """A set / tuple display of constants and dotted names that a module-level constant expression denotes, or None:
+    `{A.X, A.Y}`, `(…)`, `frozenset({…})`, `frozenset((…))`, and unions `C1 | C2` of such constants."""
+    if depth > 4:
+        return None
+    if isinstance(e, ast.Call) and isinstance(e.func, ast.Name) and e.func.id in ("frozenset", "set", "tuple") and len(e.args) == 1 and not e.keywords:
+        inner = _literal_constant(m, e.args[0], depth + 1)
+        if inner is None:
+            return None
+        if e.func.id == "tuple":
+            return ast.Tuple(elts=inner.elts, ctx=ast.Load())
+        return ast.Set(elts=inner.elts)
+    if isinstance(e, (ast.Set, ast.Tuple, ast.List)):
+        if all(isinstance(x, ast.Constant) or (isinstance(x, (ast.Attribute, ast.Name)) and _dotted(x)) for x in e.elts) and e.elts:
+            return e
+        return None
+    if isinstance(e, ast.BinOp) and isinstance(e.op, ast.BitOr):
+        a, b = _literal_constant(m, e.left, depth + 1), _literal_constant(m, e.right, depth + 1)
+        if a is None or b is None or isinstance(a, ast.Tuple) or isinstance(b, ast.Tuple):
+            return None
+        seen, elts = set(), []
+        for x in list(a.elts) + list(b.elts):
+            k = ast.dump(x)
+            if k not in seen:
+                seen.add(k)
+                elts.append(x)
+        return ast.Set(elts=elts)
+    if isinstance(e, ast.Name) and e.id in m.assigns:
+        return _literal_constant(m, m.assigns[e.id], depth + 1)
+    return None
+
+
+def _dotted(x) -> bool:
+    while isinstance(x, ast.Attribute):
+        x = x.value
+    return isinstance(x, ast.Name)
+
+
+def expand_constants(repo) -> list[str]:
+    """Second part of the normal form: a private module-level constant the analyser has no name for, bound once to a literal
+    collection of enum members / constants and never mutated, is written out where it is read inside the functions of its
+    module (`dtype in _FOUR_BIT_TYPES` reads as `dtype in {DataType.INT4, …}`) - extract-constant / inline-constant
+    refactorings do not change a verdict."""
+    log = []
+    for m in repo.pkg_modules():
+        counts: dict[str, int] = {}
+        for st in ast.walk(m.tree):
+            if isinstance(st, (ast.Assign, ast.AnnAssign, ast.AugAssign)):
+                for t in (st.targets if isinstance(st, ast.Assign) else [st.target]):
+                    for x in ast.walk(t):
+                        if isinstance(x, ast.Name):
+                            counts[x.id] = counts.get(x.id, 0) + 1
+            elif isinstance(st, ast.Global):
+                for n in st.names:
+                    counts[n] = counts.get(n, 0) + 2
+        consts = {}
+        for name, value in m.assigns.items():
+            if not name.startswith("_") or name.startswith("__") or _known_to_analyser(name) or counts.get(name, 0) != 1:
+                continue
+            lit = _literal_constant(m, value)
+            if lit is None:
+                continue
+            # never mutated: no method call on it that could change it
+            mutated = any(isinstance(c, ast.Call) and isinstance(c.func, ast.Attribute) and isinstance(c.func.value, ast.Name) and c.func.value.id == name
+                          and c.func.attr in ("add", "update", "discard", "remove", "clear", "pop", "append", "extend", "insert", "sort")
+                          for c in ast.walk(m.tree))
+            if not mutated:
+                consts[name] = lit
+        if not consts:
+            continue
+        for f in m.all_funcs:
+            if not isinstance(f.node, (ast.FunctionDef, ast.AsyncFunctionDef)) or f.parent is not None:
+                continue
+            local = {x.id for x in ast.walk(f.node) if isinstance(x, ast.Name) and not isinstance(x.ctx, ast.Load)} | {a.arg for a in ast.walk(f.node) if isinstance(a, ast.arg)}
+            names = {k: v for k, v in consts.items() if k not in local}
+            if not names:
+                continue
+            hits = [x for x in ast.walk(f.node) if isinstance(x, ast.Name) and x.id in names and isinstance(x.ctx, ast.Load)]
+            for x in hits:
+                if _replace_node(f.node, x, ast.copy_location(clone(names[x.id]), x)):
+                    log.append(f"{f.key}: constant {x.id} written out")
+            if hits:
+                ast.fix_missing_locations(f.node)
+    return log
+
+
 def expand_helpers(repo) -> dict:
     """Rewrite the trees of `repo` (an index built WITHOUT this pass) in place; returns statistics."""
     from .types import Typer
 
     inl = Inliner(repo, Typer(repo, None))
     stats = inl.run()
+    inl.log += expand_constants(repo)
     stats["log"] = inl.log
     stats["into"] = {k: sorted(v) for k, v in inl.into.items()}
     # helpers of which some call is still a call (shape not handled, recursion, name clash …)
